@@ -25,6 +25,7 @@ MODULES = [
     "storage",
     "chp",
     "nodal",
+    "intervals",
 ]
 
 
